@@ -84,6 +84,14 @@ def run(chk):
     # R7: the bound and the test that the rules above read off an assertion / assorter are the ones it was built with
     aud.ctor_fields(chk, "C06.R7", REL, "Assorter", ["contest", "upper_bound", "tally_pool_means"], "the declared bound is obj.upper_bound")
     aud.ctor_fields(chk, "C06.R7", REL, "Assertion", ["contest", "assorter", "margin", "test"], "u is installed in obj.test, data come from obj.assorter")
+    # R8: what "within the contest's threshold" means: the threshold is the sample number of the contest's own n-th card -- it
+    # moves only while the contest is still in progress (C07.R3)
+    from . import c07
+    f_ = c07.sampling_facts(chk)
+    def _r23(c):
+        c07.r2(c, f_)  # (locates the taken branch for r3)
+        c07.r3(c, f_)
+    chk.borrow(_r23, {"C07.R3": "C06.R8"})
 
 
 def r1(chk):
